@@ -702,6 +702,7 @@ type vTransReq struct {
 	data                                                                        []byte // data frame (with its length prefix) or nil
 	value                                                                       string // text SET value
 	will                                                                        bool   // a will command (WILL_LOCK / WILL_UNLOCK frame; text: … WILL 1), typ says what it runs as
+	implicitId                                                                  bool   // text UNLOCK without LOCK_ID: the server fills in the LockId of the connection's last successful LOCK (= lockid, set by the script)
 	shortForm                                                                   bool   // text: `LOCK <16 raw key bytes> TIMEOUT 0` (fits the first 64-byte read)
 	cid                                                                         int
 	fw                                                                          bool
@@ -835,6 +836,9 @@ func (x *vTransRun) textCmd(q *vTransReq) []byte {
 		return vTransRESPCmd(name, string(k[:]), "TIMEOUT", "0")
 	}
 	args := []string{name, vTransHexId(q.key), "LOCK_ID", vTransHexId(q.lockid), "TIMEOUT", strconv.Itoa(q.timeout | q.tflag<<16), "EXPRIED", strconv.Itoa(q.expried | q.eflag<<16)}
+	if q.implicitId {
+		args = []string{name, vTransHexId(q.key), "TIMEOUT", strconv.Itoa(q.timeout | q.tflag<<16), "EXPRIED", strconv.Itoa(q.expried | q.eflag<<16)}
+	}
 	if q.flag != 0 {
 		args = append(args, "FLAG", strconv.Itoa(q.flag))
 	}
@@ -2020,6 +2024,14 @@ func vTransScriptText(x *vTransRun) {
 	v := &vTransReq{typ: 'L', mode: 'v', tok: x.w.fresh(), key: x.w.fresh(), value: fmt.Sprintf("val%d", x.r.Intn(100))}
 	x.evRequest(c, v)
 	x.evRequest(c, x.lockReq('U', k, id, 0, 0))
+	// UNLOCK without LOCK_ID: the connection's last successful LOCK names the hold (TextServerProtocol.lockId, kept by the text handlers of
+	// both the plain and the forwarding protocol); the model is given the resolved id, the wire carries none
+	k3, id3 := x.w.fresh(), x.w.fresh()
+	x.evRequest(c, x.lockReq('L', k3, id3, 0, 60))
+	u := x.lockReq('U', k3, id3, 0, 0)
+	u.implicitId = true
+	x.evRequest(c, u)
+	x.evRequest(c, x.lockReq('U', k3, id3, 0, 0))
 	x.evClose(c)
 }
 
